@@ -25,10 +25,18 @@ RULE = ('cwrs: for every (N,K) of the static mode\'s pulse cache (23 band sizes 
         'encoder model and the complete list of coder calls with their arguments, the final coder state and the entry condition '
         'storage == nbCompressedBytes must be identical; plus '
         'quant_coarse_energy called directly on 20k / 200k random states incl. budgets of 0..40 bits. '
+        'frameenc: the same frames continued to ec_enc_done (additionally ec_encode and ec_enc_done wrapped): fine energy, every '
+        'quant_all_bands call (theta_rdo codes a band twice and restores the coder: the surviving trial is identified by following the '
+        'coder states incl. a hash of the bytes written), anti-collapse bit, finalisation; the decisions read off the calls are replayed '
+        'through the Lean frame encoder model and all calls, their parameters and the coder state before ec_enc_done must be identical. '
         'A case is one protocol line; a block line stands for up to 4096 (cwrs) / 32768 (laplace) compared evaluations; '
         'distinct = (op, outcome kind) classes')
 NOT_COVERED = [
-    'CELT header round trip: the band data behind the allocation (quant_all_bands: C08 owner / C03), the FUZZING build, custom modes, '
+    'CELT frame round trip: the decoder side is C03\'s celtHeader followed by C03\'s afterAlloc on the identical allocation; that C03\'s '
+    'celtFrame (which feeds computeAllocation from the range decoder call by call, allocDrive) reaches the same allocation is not yet '
+    'linked formally (alloc_enc_dec_agree gives the agreement for the complete value list); the PVQ leaf decision is the codeword index '
+    '(bijective with alg_quant\'s pulse vector by cwrsi_icwrs / icwrs_cwrsi), theta_rdo\'s discarded trial encodings are not modelled; '
+    'the FUZZING build, custom modes, '
     'lfe streams on real frames (lfe is modelled and covered by the direct coarse-energy tie only), the degenerate hybrid case in which the '
     'SILK part has already filled the packet (tell >= len*8 on entry: hypothesis hroom), and the allocation of SILENT frames (encoder and '
     'decoder legitimately call clt_compute_allocation with different, sub-one-bit budgets when VBR shrinks the packet)',
@@ -72,6 +80,7 @@ REQUIRED_THEOREMS = [
     'OpusProps.C17.cwrs_val_ranges', 'OpusProps.C17.init_caps_domain', 'OpusProps.C17.alloc_total_ranges_budget',
     'OpusProps.C17.alloc_enc_dec_agree', 'OpusProps.C17.celt_header_roundtrip',
     'OpusProps.C17.celt_header_roundtrip_silence', 'OpusProps.C17.coarse_state_agrees_except_one_bit_start',
+    'OpusProps.C17.celt_bands_roundtrip', 'OpusProps.C17.celt_frame_roundtrip',
 ]
 UNPROVED = [
 ]
@@ -91,7 +100,9 @@ LEVEL_TEXT = ('full proof: U/V recurrence and symmetry; cwrsi and icwrs (transcr
               'transcribed and tied call by call) round-trip through C03\'s decoder model on the finished packet for every decision stream, '
               'buffer and continuation: all header fields, the allocation and rng/tell/tell_frac at both hand-overs agree, every budget test '
               'is shown to take the same branch on both sides; silent frames separately; the one branch where the encoder\'s kept coarse '
-              'energy differs from the decoded one is pinned down')
+              'energy differs from the decoded one is pinned down; the rest of the CELT frame (fine energy, quant_all_bands with splits, '
+              'stereo, all theta PDFs, PVQ indices, anti-collapse, finalise): the encoder model round-trips through C03\'s band decoder '
+              'model with equal final range, ec_tell, ec_tell_frac — the CELT frame round trip')
 LEVEL_NOTE = ('trusted: Lean kernel; the extractors tools/extract/CeltTables.c, SilkIcdf.c (tables go through the C compiler); the '
               'transcription of cwrs.c/laplace.c into Lean, tied by exact differential runs on the real code under ASan/UBSan with only '
               'the range-coder entry points stubbed; ftb values and table slices per call site (source scan + the tables captured at the '
